@@ -32,6 +32,7 @@ func Exec(cursor store.Cursor, expr *grammar.Grammar, settings ...ContextApply) 
 		root:             root,
 		result:           Result(NodeSet{cursor}),
 		contextPosition:  0,
+		contextSize:      1,
 		builtinFunctions: builtinFunctions,
 		ContextSettings:  contextSettings,
 	}
